@@ -64,6 +64,7 @@ Definition run_case (pn : N) (dom : string) (args : list arg) : list string :=
     match args with
     | [AN 0; AN k; AB bs] => run_cast p (user_sized k) bs
     | [AN 1; AN F; AN es; AN ea; AB bs] => run_cast p (user_dst F es ea) bs
+    | [AN 2; AN k; AN al; AB bs] => run_cast p (user_sized_al k al) bs
     | _ => bad
     end
   else if dom =? "ctor" then
